@@ -197,8 +197,9 @@ def observe_otf(desc, lib, round_tol, cff_version, optimize, skip=()):
         else:
             if R.degenerate(R.round_contours(exp)):
                 skipped += 1
-            elif not R.same_shape(exp, got, tol=tol + 0.002 + (0.01 + 0.006 * max(len(c) for c in exp) if optimize == 2 else 0)):
-                # optimizeCFF=2 (cffsubr) re-encodes non-integer operands with two decimals: measured 0.26 for tolerance 0.25
+            elif not R.same_shape(exp, got, tol=tol + 0.002 + (0.01 + 0.005 * sum(len(c) for c in exp) if optimize == 2 else 0)):
+                # optimizeCFF=2 (cffsubr) re-encodes non-integer operands with two decimals; operands are RELATIVE moves, so the error
+                # (<= 0.005 per operand) accumulates over all points of the glyph: measured 0.26 for tolerance 0.25 and 0.08 for tolerance 0
                 # on the unchanged tree; allowed for as representation error of the external compressor (see notes/C01.md)
                 bad.append({"glyph": name, "what": f"outline moved by more than roundTolerance={tol}", "expected": exp, "got": got})
         w = R.ot_round(desc[name]["width"])
@@ -244,7 +245,7 @@ def c01_syntactic(tier, seed):
 
 @hook("C01")
 def c01_observer(tier, seed):
-    n = 24 if tier == "quick" else 600
+    n = 24 if tier == "quick" else 3000
     rng = random.Random(seed * 7919 + 1)
     res = {"violations": [], "checker_errors": [], "evaluations": 0, "distinct": 0, "bounded": [], "trusted": []}
     skipped = 0
